@@ -872,6 +872,83 @@ func (e *Exec) ropeOfBytes(bs []*T) []RopePiece {
 	return rope
 }
 
+// renderJSON prints a fully concrete abstract value as JSON text (encoding/json's formatting).
+func renderJSON(v JVal, sb *strings.Builder) bool {
+	switch x := v.(type) {
+	case JNull:
+		sb.WriteString("null")
+	case JBool:
+		if !x.B.IsConst() {
+			return false
+		}
+		if x.B.Val == 1 {
+			sb.WriteString("true")
+		} else {
+			sb.WriteString("false")
+		}
+	case JNum:
+		switch {
+		case x.I != nil && x.I.IsConst():
+			fmt.Fprintf(sb, "%d", int64(x.I.Val))
+		case x.F != nil && x.F.IsConst():
+			b, err := json.Marshal(mathFloat64frombits(x.F.Val))
+			if err != nil {
+				return false
+			}
+			sb.Write(b)
+		default:
+			return false
+		}
+	case JStr:
+		if !x.S.Concrete() {
+			return false
+		}
+		b, _ := json.Marshal(x.S.S)
+		sb.Write(b)
+	case *JArr:
+		sb.WriteByte('[')
+		for i, el := range x.E {
+			if i > 0 {
+				sb.WriteByte(',')
+			}
+			if !renderJSON(el, sb) {
+				return false
+			}
+		}
+		sb.WriteByte(']')
+	case *JObj:
+		sb.WriteByte('{')
+		first := true
+		for _, m := range x.M {
+			if m.G != nil {
+				if m.G.IsFalse() {
+					continue
+				}
+				if !m.G.IsTrue() {
+					return false
+				}
+			}
+			if !m.K.Concrete() {
+				return false
+			}
+			if !first {
+				sb.WriteByte(',')
+			}
+			first = false
+			kb, _ := json.Marshal(m.K.S)
+			sb.Write(kb)
+			sb.WriteByte(':')
+			if !renderJSON(m.V, sb) {
+				return false
+			}
+		}
+		sb.WriteByte('}')
+	default:
+		return false
+	}
+	return true
+}
+
 // ---------- ConcatJSON (M-swag) ----------
 
 func (e *Exec) concatJSON(blobs Slice) Value {
